@@ -104,6 +104,7 @@ impl Check for C09 {
         let mut events = Vec::new();
         let session = r.chance(1, 2);
         let zone_rate = *r.pick(&[0u64, 0, 1, 3]);
+        let date_rules = r.chance(1, 4);
         let pool = g.name_pool(&mut r, 3);
         let mut bound: Vec<NameUse> = Vec::new();
         if session { events.push(Event { actor: 0, op: Op::SessionNew { lang: lang.into() }, clock: ClockScript::Frozen { t } }); }
@@ -119,6 +120,11 @@ impl Check for C09 {
                 }
             }
             t = advance(&mut r, t);
+            if date_rules && r.chance(1, 10) {
+                // the numeric spelling is re-installed through set_date_rule (day/month/year or month/day/year)
+                events.push(Event { actor: ADMIN, op: Op::Admin(AdminOp::SetDateRule { mdy: r.chance(1, 2) }), clock: ClockScript::Frozen { t } });
+                continue;
+            }
             if r.below(10) < zone_rate {
                 // the default zone labels dates; calendar arithmetic must not depend on it
                 let tz = if r.chance(1, 3) { g.zone(&mut r).0 } else { r.pick(&g.zones).0.clone() };
